@@ -2,6 +2,7 @@
 from ..core import *
 from .. import terms as T
 from ..spec import consts as K, hashes as S
+from .common import *
 
 META = {
     'title': 'MD4/MD5/SHA-0/1/2: constants, Boolean functions, round terms, length strengthening, guards',
@@ -17,44 +18,6 @@ META = {
 
 SHA, MD, PAD = 'crysp/sha.py', 'crysp/md.py', 'crysp/padding.py'
 OPT = T.Opts(plus_commutes=True)
-
-
-def tt_of_lambda(ctx, lam):
-    """Truth table (8 rows, index 4x+2y+z) of a 3-argument bitwise lambda term."""
-    rows = []
-    for x in (0, 1):
-        for y in (0, 1):
-            for z in (0, 1):
-                body = apply_lam(lam, [T.C(x), T.C(y), T.C(z)])
-                rows.append(eval_term(body, {}) & 1)
-    return rows
-
-
-def lam_of_global(ctx, rel, name):
-    t = ctx.module_const(rel, name)
-    if t[0] != 'lam':
-        raise AnalysisError('%s::%s is not a lambda' % (rel, name))
-    return t
-
-
-def init_self(ctx, rel, cls, args=None, kwargs=None):
-    sm = ctx.summ(rel, cls + '.__init__', args=args, kwargs=kwargs, unroll=256)
-    return sm.env['self']
-
-
-def cmp_fn(ctx, construct, rel, qual, spec_src, opts=None, holes=None, **kw):
-    """Whole-function comparison with a specification restatement."""
-    def go():
-        got = ctx.fn_term(rel, qual, opts=opts, **kw)
-        exp = ctx.spec_term(spec_src, opts=opts, **kw)
-        if holes is not None:
-            b = {}
-            if unify(exp, got, b):
-                holes.update(b)
-                return ctx.ok(construct, where=ctx.where(rel, qual))
-            # report using the plain diff
-        return ctx.same_term(construct, got, exp, where=ctx.where(rel, qual))
-    return ctx.guard(construct, go, where=ctx.where(rel, qual))
 
 
 def run(ctx):
@@ -73,17 +36,17 @@ def run(ctx):
             ctx.equal('SHA1.' + a, ctx.pyval(T.get_attr(s, a)), v, ctx.where(SHA, 'SHA1.__init__'), a)
         ver = ctx.summ(SHA, 'SHA1.__init__')
         asserts = [e for e in ver.effects if e[0] == 'assert']
-        ctx.check('SHA1.version-domain', any(a[1] == ctx.spec_expr('version in (0,1)', {'version': ('sym', 'version')}) for a in asserts),
+        ctx.check('SHA1.version-domain', any(a[1] == ctx.spec_expr('version in (0,1)', {'version': A(1)}) for a in asserts),
                   'version is not restricted to (0,1)', ctx.where(SHA, 'SHA1.__init__'))
-        ctx.check('SHA1.version-stored', T.get_attr(ver.env['self'], 'version') == ('sym', 'version'),
+        ctx.check('SHA1.version-stored', T.get_attr(ver.env['self'], 'version') == A(1),
                   'self.version is not the constructor argument', ctx.where(SHA, 'SHA1.__init__'))
         st = ctx.summ(SHA, 'SHA1.initstate', unroll=64)
         H = T.get_attr(st.env['self'], 'H')
         ctx.equal('SHA1.initstate.H', ctx.pyval(strip_bits(H)), K.SHA1_IV, ctx.where(SHA, 'SHA1.initstate'), 'initial hash value')
-        ctx.check('SHA1.initstate.H-width', H[0] == 'list' and all(x[0] == 'call' and x[2][1:] == (('attr', ('sym', 'self'), 'wsize'),) for x in H[1]),
+        ctx.check('SHA1.initstate.H-width', H[0] == 'list' and all(x[0] == 'call' and x[2][1:] == (('attr', SELF, 'wsize'),) for x in H[1]),
                   'H words are not built with the word size', ctx.where(SHA, 'SHA1.initstate'))
         pm = T.get_attr(st.env['self'], 'padmethod')
-        ctx.same_term('SHA1.initstate.padmethod', pm, ctx.spec_expr('SHApadding(self.blocksize,self.wsize)', {'self': ('sym', 'self')}),
+        ctx.same_term('SHA1.initstate.padmethod', pm, ctx.spec_expr('SHApadding(self.blocksize,self.wsize)', {'self': SELF}),
                       ctx.where(SHA, 'SHA1.initstate'))
     ctx.guard('SHA1 constants', sha1_consts)
 
@@ -126,7 +89,7 @@ def run(ctx):
     def sha2_domain():
         sm = ctx.summ(SHA, 'SHA2.__init__')
         asserts = [e[1] for e in flat_effects(sm.effects) if e[0] == 'assert']
-        want = [ctx.spec_expr('size in (224,256,384,512)', {'size': ('sym', 'size')})]
+        want = [ctx.spec_expr('size in (224,256,384,512)', {'size': A(1)})]
         for w in want:
             ctx.check('SHA2.size-domain', w in asserts, 'no assert restricting size to 224/256/384/512', ctx.where(SHA, 'SHA2.__init__'))
         # t>0 branch: size must be 512, t in (224,256)
@@ -134,9 +97,9 @@ def run(ctx):
         okt = False
         for e in ifs:
             inner = [x[1] for x in e[2] if x[0] == 'assert']
-            if ctx.spec_expr('t in (224,256)', {'t': ('sym', 't')}) in inner and \
-               ctx.spec_expr('size==512', {'size': ('sym', 'size')}) in inner:
-                okt = e[1] == ctx.spec_expr('t>0', {'t': ('sym', 't')})
+            if ctx.spec_expr('t in (224,256)', {'t': A(2)}) in inner and \
+               ctx.spec_expr('size==512', {'size': A(1)}) in inner:
+                okt = e[1] == ctx.spec_expr('t>0', {'t': A(2)})
         ctx.check('SHA2.t-domain', okt, 'truncated variants are not restricted to size 512 and t in (224,256)', ctx.where(SHA, 'SHA2.__init__'))
     ctx.guard('SHA2 domain', sha2_domain)
 
@@ -156,7 +119,7 @@ def run(ctx):
         H = T.get_attr(st.env['self'], 'H')
         ctx.equal('MD4.initstate.H', ctx.pyval(strip_bits(H)), K.MD_IV, ctx.where(MD, 'MD4.initstate'), 'initial value')
         ctx.same_term('MD4.initstate.padmethod', T.get_attr(st.env['self'], 'padmethod'),
-                      ctx.spec_expr('MDpadding(self.blocksize,self.wsize)', {'self': ('sym', 'self')}), ctx.where(MD, 'MD4.initstate'))
+                      ctx.spec_expr('MDpadding(self.blocksize,self.wsize)', {'self': SELF}), ctx.where(MD, 'MD4.initstate'))
         s5 = init_self(ctx, MD, 'MD5')
         wh = ctx.where(MD, 'MD5.__init__')
         ctx.equal('MD5.K', ctx.pyval(T.get_attr(s5, 'K')), K.MD5_K, wh, 'sine table')
@@ -210,7 +173,7 @@ def check_zero_fill(ctx, cls, nterm, marker_bits):
     where = ctx.where(PAD, cls + '.lastblock')
     if nterm is None:
         return ctx.err(cls + '.N', 'zero-fill length not found', where)
-    selfs = ('sym', 'self')
+    selfs = SELF
     kget = ctx.spec_expr("kargs.get('bitlen',None)", {'kargs': ('sym', '**kargs')})
     bad = None
     n = 0
